@@ -154,12 +154,13 @@ class ScriptedModel:
     algorithm classes can be pushed through region configurations no GP would produce (identical, touching, nested,
     re-growing regions).  predict() returns mean = centre and covariance = diag(half-width^2) (or the scripted Sigma)."""
 
-    def __init__(self, points, m, kind, G, seed, nidx_col=False, wander=False):
+    def __init__(self, points, m, kind, G, seed, nidx_col=False, wander=False, iso=False):
         self.points = np.asarray(points, dtype=float)
         self.m, self.kind, self.G = m, kind, G
         self.rs = np.random.RandomState(seed)
         n = len(self.points)
         self.truth = self.rs.randint(0, G + 1, size=(n, m))
+        self.iso = iso                # one common width for every design and objective per round (Auer's default mode)
         self.wander = wander          # arbitrary (not truth-containing) posteriors: the means drift between rounds
         self.t = 0
         self.lo = np.zeros((n, m))
@@ -175,9 +176,10 @@ class ScriptedModel:
         self.t += 1
         n = len(self.points)
         wmax = max(1, self.G - (self.t - 1) // 2)
+        wiso = int(self.rs.randint(0, wmax + 1))
         for i in range(n):
             for k in range(self.m):
-                w = int(self.rs.randint(0, wmax + 1))
+                w = wiso if self.iso else int(self.rs.randint(0, wmax + 1))
                 off = int(self.rs.randint(0, w + 1))
                 self.lo[i, k] = self.truth[i, k] - off
                 if self.wander and self.rs.rand() < 0.5:
@@ -243,7 +245,7 @@ def build_scripted(cfg):
     def fake_factory(*args, **kw):
         X = kw.get("X")
         Y = kw.get("Y")
-        holder["model"] = ScriptedModel(X, Y.shape[1], sc["kind"], sc["G"], cfg.get("seed", 0), wander=sc.get("wander", False))
+        holder["model"] = ScriptedModel(X, Y.shape[1], sc["kind"], sc["G"], cfg.get("seed", 0), wander=sc.get("wander", False), iso=sc.get("iso", False))
         return holder["model"]
 
     saved = {}
@@ -259,7 +261,7 @@ def build_scripted(cfg):
     m = alg.m
     if "model" not in holder:   # PaVeBa / Auer build an EmpiricalMeanVarModel themselves: replace it
         pts = alg.design_space.points
-        holder["model"] = ScriptedModel(pts, m, sc["kind"], sc["G"], cfg.get("seed", 0), wander=sc.get("wander", False))
+        holder["model"] = ScriptedModel(pts, m, sc["kind"], sc["G"], cfg.get("seed", 0), wander=sc.get("wander", False), iso=sc.get("iso", False))
         alg.model = holder["model"]
     model = holder["model"]
     if a in ("VOGP", "EpsilonPAL"):
@@ -580,6 +582,67 @@ def flat_pareto(alg, cfg, n):
     return out
 
 
+def region_contains(reg, mu):
+    mu = np.asarray(mu, dtype=float)
+    if hasattr(reg, "lower"):
+        return bool(np.all(np.asarray(reg.lower) <= mu) and np.all(mu <= np.asarray(reg.upper)))
+    d = mu - np.asarray(reg.center, dtype=float)
+    a = float(np.asarray(reg.alpha).ravel()[0])
+    return bool(d @ np.linalg.solve(np.asarray(reg.sigma, dtype=float), d) <= a * a * (1 + 1e-12))
+
+
+def truth_relations(alg, cfg, truth, P, valid):
+    """relations of the scripted TRUTH for the accuracy clause (exact integers on the left, the code's epsilon on the right)"""
+    n = len(truth)
+    fam = ALG_FAM[cfg["alg"]]
+    eps = cfg.get("eps", 0.1)
+    out = {"judge": bool(valid), "P": list(P), "wd": [], "ex": [], "sd": [], "mo": []}
+    if fam == "paveba" and hasattr(alg.design_space.confidence_regions[0], "lower"):
+        # rectangles take alpha*eps as an OBJECTIVE-SPACE shift: that only has the library's meaning for unit facet normals
+        rows = np.linalg.norm(np.asarray(alg.order.ordering_cone.W, dtype=float), axis=1)
+        if not np.allclose(rows, 1.0, atol=1e-12):
+            out["judge"] = False
+    if fam == "auer":
+        W = np.eye(truth.shape[1])
+        AE = np.full(len(W), eps)
+        slack = None
+    else:
+        W = np.asarray(alg.order.ordering_cone.W, dtype=float)
+        if fam == "paveba":
+            AE = np.asarray(alg.order.ordering_cone.alpha, dtype=float).flatten() * eps      # per-facet gap bound alpha_n * eps (rows as given)
+            slack = None
+        else:
+            cone = GR.Cone(W)
+            slack = np.asarray(slack_for(alg, cfg, cone), dtype=float)
+            AE = None
+    tol = 1e-9
+    for j in range(n):
+        for i in range(n):
+            if i == j:
+                continue
+            d = (truth[j] - truth[i]).astype(float)
+            wdv = W @ d
+            if fam in ("paveba", "auer"):
+                if np.all(wdv >= 0):
+                    out["wd"].append([j + 1, i + 1])
+                if np.all(wdv > AE + tol):
+                    out["ex"].append([j + 1, i + 1])
+                elif np.all(wdv > AE - tol):
+                    out["judge"] = False           # exactly at the gap bound: not judged
+            else:
+                ws = W @ (d + slack)
+                if np.all(ws >= -tol):
+                    out["sd"].append([j + 1, i + 1])
+                    if not np.all(ws >= tol):
+                        out["judge"] = False
+                wm = W @ (d - slack)
+                if np.all(wm > tol):
+                    out["mo"].append([j + 1, i + 1])
+                elif np.all(wm > -tol):
+                    out["judge"] = False
+    return out
+
+
 # --------------------------------------------------------------------------------------------- recording a run
 def record(cfg):
     """run the algorithm described by cfg, return the trace dict (never raises for algorithm errors)."""
@@ -606,6 +669,7 @@ def record(cfg):
          "L": int(getattr(alg, "L", 0)) if cfg["alg"] == "NaiveElimination" else 0, "steps": []}
     notes = {"either_pairs": 0, "input_changed": 0, "acq_errors": 0}
     done_seen = 0
+    valid_history = True
     for stepno in range(cfg.get("max_steps", 60)):
         pre = proj_state(alg, cfg)
         if smodel is not None and stepno > 0:
@@ -686,6 +750,12 @@ def record(cfg):
                 step["data"] = {"gained": step["data"]["returned"], "returned": step["data"]["returned"], "synced": True}
         if not exc and ALG_FAM[cfg["alg"]] == "flat":
             step["flat"] = flat_pareto(alg, cfg, n)
+        if smodel is not None and not exc and not smodel.wander:
+            active = set(pre["S"]) | (set(pre["U"]) if ALG_FAM[cfg["alg"]] == "paveba" else set(pre["P"]) if ALG_FAM[cfg["alg"]] == "vogp" else set())
+            if not (pre["S"] == [] ):
+                for i in active:
+                    if not region_contains(alg.design_space.confidence_regions[i - 1], smodel.truth[i - 1]):
+                        valid_history = False
         T["steps"].append(step)
         if exc:
             break
@@ -693,6 +763,11 @@ def record(cfg):
             done_seen += 1
             if done_seen > cfg.get("extra_idle", 2):
                 break
+    if smodel is not None and not smodel.wander and T["steps"] and not T["steps"][-1]["exc"] and ALG_FAM[cfg["alg"]] != "flat":
+        last = T["steps"][-1]["post"]
+        if last["S"] == []:
+            T["final"] = truth_relations(alg, cfg, smodel.truth, last["P"], valid_history)
+            notes["valid_history"] = valid_history
     T["notes"] = notes
     T["wall"] = round(time.time() - t0, 2)
     T["cfg"] = cfg
@@ -700,13 +775,14 @@ def record(cfg):
 
 
 # --------------------------------------------------------------------------------------------- validation by TLC
-TRACE_KEYS = ("tid", "alg", "n", "m", "batch", "costs", "budget", "L", "steps")
+TRACE_KEYS = ("tid", "alg", "n", "m", "batch", "costs", "budget", "L", "steps", "final")
 STEP_KEYS = ("pre", "post", "ret", "exc", "gate", "rel", "amb", "req", "rows", "acq", "acqchk", "data", "skipsets", "flat")
 
 
 def to_ndjson(traces, path):
     with open(path, "w") as fh:
         for T in traces:
+            T.setdefault("final", {"judge": False, "P": [], "wd": [], "ex": [], "sd": [], "mo": []})
             t = {k: T[k] for k in TRACE_KEYS}
             t["steps"] = []
             for s in T["steps"]:
